@@ -1258,6 +1258,27 @@ static void run_resample(Json& js, vh::Rng& rng, long budget, int pqmax) {
         }
         js.begin("Resample").num("p", p * mul).num("q", q * mul).num("len", len).str("o", o).num("outlen", y.size())
           .boolean("same", same).boolean("finite", finite).boolean("probe", useprobe).num("shift", shift).num("custom", custom).end();
+        // band-limiting: content between the new and the old Nyquist frequency must not come through.  Only where that band is
+        // much wider than the default design's transition (rate reduced to 2/3 or less) and away from its lower edge; the
+        // unchanged tree attenuates such tones by 59 dB or more, 40 dB is required.
+        if (3 * pr <= 2 * qr && !custom && t % 3 == 0) {
+            const double nyq = 0.5 * pr / qr;
+            const double f = nyq + (0.5 + 0.3 * rng.unif()) * (0.5 - nyq);
+            const int n2 = 4000;
+            arr_real xt(n2);
+            for (int i = 0; i < n2; ++i) {
+                xt[i] = std::sin(2 * M_PI * f * i + 0.3);
+            }
+            const arr_real yt = resample(xt, p * mul, q * mul);
+            long double pw = 0;
+            const int a = yt.size() / 4, b = 3 * yt.size() / 4;
+            for (int i = a; i < b; ++i) {
+                pw += (long double)yt[i] * yt[i];
+            }
+            const double amp = std::sqrt((double)(pw / std::max(1, b - a)) / 0.5);
+            js.begin("Resid").str("clause", "C08.antialias").num("nh", pr).num("n", qr).boolean("cplx", false)
+              .num("err_milli", (long)std::min(1e9, std::ceil(amp / 0.01 * 1000))).end();
+        }
         // size helpers
         const int size = (int)rng.range(0, 5000);
         js.begin("Sizes").num("L", p).num("M", q).num("size", size).num("next", IResampler::next_size(size, p, q))
